@@ -117,6 +117,55 @@ theorem decode_raw_infix (bs : Bytes) (tbl : Tbl) (raw : Bytes) (m : Msg) (n : N
     rw [he]
     exact List.IsInfix.trans (List.take_prefix _ _).isInfix (List.drop_suffix _ _).isInfix
 
+/-- **A frame whose CheckSum value does not match its bytes is never returned** – by any buffer,
+table or BeginString.  (`pre` is everything in front of `SOH 10=`; the value `v` is read with
+Python's `int()`.)  This is the part of "never accepts a corrupted frame" that the code
+guarantees: every edit of `pre` that changes the byte sum modulo 256 is rejected. -/
+theorem C10_corruption_partial (pre v tail : Bytes) (hv : SOH ∉ v) (ht : tail = [] ∨ tail = [SOH])
+    (hbad : pyInt v ≠ some ((sum (pre ++ [SOH]) % 256 : Nat) : Int)) :
+    ∀ bs tbl raw m n, decode bs tbl raw ≠ .msg m n (pre ++ SOH :: (tag10 ++ EQS :: v) ++ tail) := by
+  intro bs tbl raw m n h
+  obtain ⟨p1, v1, t1, e1, ht1, hv1, hp1, _⟩ := decode_checksum' h
+  obtain ⟨hpa, hva, _⟩ := ck_decomp_unique (v1 := v) (v2 := v1) e1 hv hv1 ht ht1
+  apply hbad
+  rw [hva, hpa, hp1, sum_append, sum_cons, sum_nil]; rfl
+
+/-- one-byte edits that change the byte sum: substitution by a different byte, deletion or
+insertion of a non-NUL byte (all bytes < 256) -/
+inductive SumEdit1 : Bytes → Bytes → Prop
+  | subst (a b : Bytes) (x y : Nat) : x ≠ y → x < 256 → y < 256 → SumEdit1 (a ++ x :: b) (a ++ y :: b)
+  | delete (a b : Bytes) (x : Nat) : 0 < x → x < 256 → SumEdit1 (a ++ x :: b) (a ++ b)
+  | insert (a b : Bytes) (y : Nat) : 0 < y → y < 256 → SumEdit1 (a ++ b) (a ++ y :: b)
+
+theorem SumEdit1.sum_ne {p p' : Bytes} (h : SumEdit1 p p') :
+    sum (p ++ [SOH]) % 256 ≠ sum (p' ++ [SOH]) % 256 := by
+  cases h with
+  | subst a b x y hxy hx hy =>
+    simp only [sum_append, sum_cons, sum_nil]; omega
+  | delete a b x h0 hx =>
+    simp only [sum_append, sum_cons, sum_nil]; omega
+  | insert a b y h0 hy =>
+    simp only [sum_append, sum_cons, sum_nil]; omega
+
+/-- every single-byte substitution / non-NUL deletion / non-NUL insertion in front of the CheckSum
+field of a returned frame yields a byte string that is never returned -/
+theorem edit_in_summed_region_rejected (bs : Bytes) (tbl : Tbl) (raw : Bytes) (m : Msg) (n : Nat)
+    (pre pre' v tail : Bytes)
+    (h : decode bs tbl raw = .msg m n (pre ++ SOH :: (tag10 ++ EQS :: v) ++ tail))
+    (hv : SOH ∉ v) (ht : tail = [] ∨ tail = [SOH]) (he : SumEdit1 pre pre') :
+    ∀ bs' tbl' raw' m' n',
+      decode bs' tbl' raw' ≠ .msg m' n' (pre' ++ SOH :: (tag10 ++ EQS :: v) ++ tail) := by
+  apply C10_corruption_partial pre' v tail hv ht
+  obtain ⟨p1, v1, t1, e1, ht1, hv1, hp1, _⟩ := decode_checksum' h
+  obtain ⟨hpa, hva, _⟩ := ck_decomp_unique (v1 := v) (v2 := v1) e1 hv hv1 ht ht1
+  rw [hva, hp1]
+  intro hp2
+  have := he.sum_ne
+  simp only [Option.some.injEq, Int.natCast_inj] at hp2
+  rw [hpa] at this
+  apply this
+  rw [← hp2, sum_append, sum_cons, sum_nil]; rfl
+
 /-- **Same-shape corruption is rejected.**  Take a frame that the decoder returns,
 `(a ++ x :: b) ++ SOH "10=" v ++ tail`, and replace the byte `x` anywhere in the summed region
 by a different byte `y` (both < 256), leaving the CheckSum field untouched.  The modified
@@ -214,10 +263,11 @@ bytes" -/
 def C10_bodylength_full : Prop :=
   ∀ bs tbl raw m n enc, decode bs tbl raw = .msg m n enc → BodyLengthOK enc
 
-/-- "no single-byte corruption of a valid frame is ever returned as a message" -/
+/-- "no single-byte corruption of a valid frame is ever returned as a message": the byte string
+`f'` is never the raw frame of a returned message, whatever buffer it arrives in -/
 def C10_corruption_full : Prop :=
   ∀ bs tbl f f', okBegin bs = true → WFFrame bs f → Edit1 f f' →
-    ∀ rest m n e, decode bs tbl (f' ++ rest) ≠ .msg m n e
+    ∀ raw m n, decode bs tbl raw ≠ .msg m n f'
 
 /-- the complete second sentence of C10 -/
 def C10_full : Prop := C10_bodylength_full ∧ C10_corruption_full
